@@ -40,8 +40,37 @@ func refIntegrity(raw, key []byte) (verdict bool, hasMI bool) {
 }
 
 type c04Case struct {
-	Hex string `json:"hex"` // message bytes
-	Key string `json:"key"` // hex
+	Hex  string   `json:"hex"` // message bytes
+	Key  string   `json:"key"` // hex
+	Kind string   `json:"kind,omitempty"` // "" verification / AddTo, "refuse", "longterm"
+	Cred []string `json:"cred,omitempty"`
+}
+
+func c04LongTerm(cr []string) (string, string) {
+	want := md5.Sum([]byte(cr[0] + ":" + cr[1] + ":" + cr[2])) //nolint:gosec
+	var got stun.MessageIntegrity
+	if p := catch(func() { got = stun.NewLongTermIntegrity(cr[0], cr[1], cr[2]) }); p != "" {
+		return "long-term-key", p
+	}
+	if !bytes.Equal(got, want[:]) {
+		return "long-term-key", fmt.Sprintf("NewLongTermIntegrity(%q,%q,%q) = %x, MD5(user:realm:password) = %x", cr[0], cr[1], cr[2], []byte(got), want)
+	}
+	return "", ""
+}
+
+func c04Refuse(before []byte, key []byte) (string, string) {
+	m := &stun.Message{Raw: exactSlice(before, 64)}
+	if err := m.Decode(); err != nil {
+		return "", ""
+	}
+	var err error
+	if p := catch(func() { err = stun.MessageIntegrity(key).AddTo(m) }); p != "" {
+		return "signs-after-fingerprint", p
+	}
+	if !errors.Is(err, stun.ErrFingerprintBeforeIntegrity) || !bytes.Equal(m.Raw, before) {
+		return "signs-after-fingerprint", fmt.Sprintf("MessageIntegrity.AddTo on a message that already carries FINGERPRINT (%x) returned %v; message changed: %v", clip(before), err, !bytes.Equal(m.Raw, before))
+	}
+	return "", ""
 }
 
 // c04Verify decodes raw at exact capacity, runs Check and compares with the oracle.
@@ -152,13 +181,11 @@ func init() {
 			}
 			// long-term key derivation
 			if c.Shard == 0 {
-				for _, cr := range [][3]string{{"user", "realm", "pass"}, {"", "", ""}, {"a:b", "c", "d"}, {"マトリックス", "example.org", "The­MªtrⅨ"},
+				for _, cr := range [][]string{{"user", "realm", "pass"}, {"", "", ""}, {"a:b", "c", "d"}, {"マトリックス", "example.org", "The­MªtrⅨ"},
 					{"100%secret", "realm", "pass"}, {"u", "r%%q", "p%d"}, {"%s", "%v", "%!"}, {"user", "realm", "trailing%"}} {
-					want := md5.Sum([]byte(cr[0] + ":" + cr[1] + ":" + cr[2])) //nolint:gosec
-					got := stun.NewLongTermIntegrity(cr[0], cr[1], cr[2])
 					c.Eval(1)
-					if !bytes.Equal(got, want[:]) {
-						c.Violation("long-term-key", fmt.Sprintf("NewLongTermIntegrity(%q,%q,%q) = %x, MD5(user:realm:password) = %x", cr[0], cr[1], cr[2], []byte(got), want), c04Case{})
+					if k, d := c04LongTerm(cr); k != "" {
+						c.Violation(k, d, c04Case{Kind: "longterm", Cred: cr})
 					}
 					c.Outcome("long-term-key")
 				}
@@ -275,10 +302,9 @@ func init() {
 						m.Add(stun.AttrType(t), c04Value(t, 4, i))
 					}
 					before := append([]byte(nil), m.Raw...)
-					err := stun.MessageIntegrity(c04Keys[3]).AddTo(m)
 					c.Eval(1)
-					if !errors.Is(err, stun.ErrFingerprintBeforeIntegrity) || !bytes.Equal(m.Raw, before) {
-						c.Violation("signs-after-fingerprint", fmt.Sprintf("MessageIntegrity.AddTo on a message with attributes %04x returned %v and changed the message: %v", lay, err, !bytes.Equal(m.Raw, before)), c04Case{Hex: hex.EncodeToString(before), Key: hex.EncodeToString(c04Keys[3])})
+					if k, d := c04Refuse(before, c04Keys[3]); k != "" {
+						c.Violation(k, d, c04Case{Kind: "refuse", Hex: hex.EncodeToString(before), Key: hex.EncodeToString(c04Keys[3])})
 					}
 					c.Outcome("refused-after-fingerprint")
 				}
@@ -311,6 +337,18 @@ func init() {
 			}
 			raw, _ := hex.DecodeString(k.Hex)
 			key, _ := hex.DecodeString(k.Key)
+			switch k.Kind {
+			case "longterm":
+				if kk, d := c04LongTerm(k.Cred); kk != "" {
+					c.Violation(kk, d, k)
+				}
+				return
+			case "refuse":
+				if kk, d := c04Refuse(raw, key); kk != "" {
+					c.Violation(kk, d, k)
+				}
+				return
+			}
 			// a replay is either a verification case or an AddTo case (message before signing)
 			if _, has := refIntegrity(raw, key); !has {
 				m := &stun.Message{Raw: exactSlice(raw, 64)}
